@@ -11,6 +11,7 @@ grep '^fixed:' KNOWN_FINDINGS.txt | while read -r _ prop commit rest; do
   case $rc in
     1) echo "DETECTED   $p revert $commit" ;;
     3) echo "SKIPPED    $p revert $commit (later fixes touch the same lines)" ;;
+    2) if echo "$out" | grep -q "failed against the current tree"; then echo "SKIPPED    $p revert $commit (the tree no longer builds without it: later fixes depend on it)"; else echo "ERROR      $p revert $commit (rc=2)"; echo "$out" | tail -3; fi ;;
     *) echo "MISSED     $p revert $commit (rc=$rc)"; echo "$out" | tail -3 ;;
   esac
 done
